@@ -430,6 +430,7 @@ impl Property for C15 {
                 );
                 gen_config(&mut cr, &mut sc, None);
                 sc.hash_salt = cr.next_u64();
+                sc.capture_state = true;
                 out.push(sc);
                 continue;
             }
@@ -479,6 +480,7 @@ impl Property for C15 {
             );
             gen_config(&mut cr, &mut sc, None);
             sc.hash_salt = cr.next_u64();
+            sc.capture_state = true;
             out.push(sc);
         }
         out
@@ -494,6 +496,15 @@ impl Property for C15 {
             return v;
         }
         v.nontrivial = w.packages.values().any(|p| p.candidates.len() >= 3);
+        // invariant on the recorded clause database: any two candidates that requirements offer are mutually
+        // exclusive through their helper patterns, whatever order they were registered in
+        if let Some(Some(d)) = rec.dumps.first() {
+            *v.probes.entry("internal_state_checked").or_insert(0) += 1;
+            if let Some(e) = crate::internal::at_most_one_encoding(w, d) {
+                v.evaluated = true;
+                v.violate("internal:at-most-one", e);
+            }
+        }
         // Whether the problem requires two different candidates of one package (directly, through revealer
         // solvables or through unions whose other alternative is dead) is decided by the reference.
         match ref_verdict(w, p) {
